@@ -133,6 +133,11 @@ def deltaScaleV (d : Rat) : Value → Value
   | .a2 x y => .a2 (x * d) (y * d)
   | .a3 x y z => .a3 (x * d) (y * d) (z * d)
 
+/-- `ExponentialCurve` with an exponent that is not a natural number: `|x|^e · sign x` has no rational value in general,
+    so the exact model covers only the inputs whose components are fixed points of every positive exponent (0, 1, −1),
+    where the result is the (promoted) input itself (`C18.expCurve_fixed_real`); generators send nothing else. -/
+def expFrac (id : Nat) : Mod := stateless id (fun _ _ v => v.promote)
+
 /-- `DeltaScale`. -/
 def deltaScale (id : Nat) : Mod := stateless id (fun _ t v => deltaScaleV t.delta v)
 
